@@ -1,21 +1,1161 @@
-use gluon::ThreadExt;
-fn main() {
-    let a: Vec<String> = std::env::args().collect();
-    let lib = std::fs::read_to_string(&a[2]).unwrap();
-    let src = std::fs::read_to_string(&a[3]).unwrap();
-    let vm = gluon::VmBuilder::new().build();
-    vm.run_io(true);
-    let t0 = std::time::Instant::now();
-    vm.load_script("c17lib", &lib).unwrap_or_else(|e| panic!("{}", e));
-    println!("lib in {:?}", t0.elapsed());
-    for i in 0..30 {
-        let t0 = std::time::Instant::now();
-        let r = vm.run_expr::<gluon::vm::api::IO<String>>("probe", &src);
-        let el = t0.elapsed();
-        match r {
-            Ok((gluon::vm::api::IO::Value(s), _)) => { if i == 0 { println!("{}", s) }; println!("OK {}", el.as_micros()) }
-            Ok((gluon::vm::api::IO::Exception(s), _)) => println!("EXC {}", s),
-            Err(e) => { println!("ERR {}", e); break }
+//! C17: channels, references, lazy values and green threads — every operation sequence is
+//! compiled to a Gluon program, run on the real VM, and its log is printed in the format of the
+//! extracted model (`coq/extract/c17/driver.ml`, model `coq/theories/Conc/Cells.v`).
+//!
+//! Output files in --out:
+//!   model_in.txt   `fixed <ops>` per case (input of the model driver; the check derives the
+//!                  `faithful <ops>` variant from it)
+//!   impl_out.txt   the log of the Gluon program | HANG | ERROR .. | PANIC .. | CRASH ..
+//!   cases.txt      the operation sequence (same text as the model line without the mode)
+//!   stats.json     input distribution, hang confirmations, throughput
+//!
+//! Process structure: the parent generates the cases and splits them over worker children
+//! (`c17 child IN OUT`); a worker owns one long-lived VM with the helper module `c17lib`
+//! loaded once and evaluates each sequence on a fresh child thread of that VM.  A sequence
+//! whose main thread waits for ever is detected by polling the future with a waker that
+//! records wake-ups: `Pending` without a wake-up on a single OS thread can never be resumed
+//! (that is `block_on` parking for ever).  The parent is the watchdog: a worker that makes no
+//! progress for WATCHDOG_SECS or dies is killed, the case it was working on is attributed
+//! (`HANG(watchdog)` / `CRASH`) and a new worker continues after it.  A few of the detected
+//! hangs are confirmed with the real blocking `run_expr` in a child with a timeout.
+use gluon::vm::api::IO;
+use gluon::{RootedThread, ThreadExt};
+use gvh::out::{fnv, Args, Hist};
+use gvh::rng::Rng;
+use std::io::{BufRead, Write};
+use std::sync::atomic::{AtomicBool, Ordering};
+use std::sync::Arc;
+use std::task::{Context, Poll, Wake};
+
+const WATCHDOG_SECS: u64 = 60;
+
+// ---------------------------------------------------------------------------------------
+// cases
+// ---------------------------------------------------------------------------------------
+#[derive(Clone, Debug, PartialEq)]
+enum LRes {
+    Val(u32),
+    Fail,
+    Force(usize),
+}
+#[derive(Clone, Debug, PartialEq)]
+struct LBody {
+    bump: Option<usize>,
+    res: LRes,
+}
+#[derive(Clone, Debug, PartialEq)]
+enum Bop {
+    Send(usize, u32),
+    Recv(usize),
+    Load(usize),
+    Store(usize, u32),
+    Force(usize),
+    Yield,
+}
+#[derive(Clone, Debug, PartialEq)]
+enum Op {
+    B(Bop),
+    Ref(u32),
+    Lazy(LBody),
+    Spawn(Vec<Bop>),
+    Resume(usize),
+}
+
+fn bop_text(b: &Bop) -> String {
+    match b {
+        Bop::Send(c, v) => format!("s{}.{}", c, v),
+        Bop::Recv(c) => format!("r{}", c),
+        Bop::Load(r) => format!("g{}", r),
+        Bop::Store(r, v) => format!("p{}.{}", r, v),
+        Bop::Force(l) => format!("f{}", l),
+        Bop::Yield => "y".into(),
+    }
+}
+fn op_text(o: &Op) -> String {
+    match o {
+        Op::B(b) => bop_text(b),
+        Op::Ref(v) => format!("n{}", v),
+        Op::Lazy(b) => {
+            let r = match &b.res {
+                LRes::Val(v) => format!("v{}", v),
+                LRes::Fail => "x".into(),
+                LRes::Force(j) => format!("f{}", j),
+            };
+            match b.bump {
+                Some(k) => format!("l{}b{}", r, k),
+                None => format!("l{}", r),
+            }
+        }
+        Op::Spawn(body) => format!("t={}", body.iter().map(bop_text).collect::<Vec<_>>().join(",")),
+        Op::Resume(t) => format!("u{}", t),
+    }
+}
+fn case_text(ops: &[Op]) -> String {
+    ops.iter().map(op_text).collect::<Vec<_>>().join(" ")
+}
+
+fn parse_bop(s: &str) -> Result<Bop, String> {
+    let (h, rest) = s.split_at(1);
+    let num = |x: &str| x.parse::<usize>().map_err(|_| format!("bad number in `{}`", s));
+    let two = |x: &str| -> Result<(usize, u32), String> {
+        let (a, b) = x.split_once('.').ok_or(format!("bad operand `{}`", s))?;
+        Ok((num(a)?, num(b)? as u32))
+    };
+    Ok(match h {
+        "s" => {
+            let (c, v) = two(rest)?;
+            Bop::Send(c, v)
+        }
+        "r" => Bop::Recv(num(rest)?),
+        "g" => Bop::Load(num(rest)?),
+        "p" => {
+            let (r, v) = two(rest)?;
+            Bop::Store(r, v)
+        }
+        "f" => Bop::Force(num(rest)?),
+        "y" => Bop::Yield,
+        _ => return Err(format!("bad basic op `{}`", s)),
+    })
+}
+fn parse_op(s: &str) -> Result<Op, String> {
+    let (h, rest) = s.split_at(1);
+    let num = |x: &str| x.parse::<usize>().map_err(|_| format!("bad number in `{}`", s));
+    Ok(match h {
+        "n" => Op::Ref(num(rest)? as u32),
+        "l" => {
+            let (res_s, bump) = match rest.find('b') {
+                Some(i) => (&rest[..i], Some(num(&rest[i + 1..])?)),
+                None => (rest, None),
+            };
+            if res_s.is_empty() {
+                return Err(format!("bad lazy body `{}`", s));
+            }
+            let res = match &res_s[..1] {
+                "v" => LRes::Val(num(&res_s[1..])? as u32),
+                "x" => LRes::Fail,
+                "f" => LRes::Force(num(&res_s[1..])?),
+                _ => return Err(format!("bad lazy body `{}`", s)),
+            };
+            Op::Lazy(LBody { bump, res })
+        }
+        "t" => {
+            if !rest.starts_with('=') {
+                return Err(format!("bad spawn `{}`", s));
+            }
+            let b = &rest[1..];
+            let mut body = vec![];
+            if !b.is_empty() {
+                for x in b.split(',') {
+                    body.push(parse_bop(x)?);
+                }
+            }
+            Op::Spawn(body)
+        }
+        "u" => Op::Resume(num(rest)?),
+        _ => Op::B(parse_bop(s)?),
+    })
+}
+fn parse_case(s: &str) -> Result<Vec<Op>, String> {
+    s.split_whitespace().filter(|t| *t != "fixed" && *t != "faithful").map(parse_op).collect()
+}
+
+/// Static scope (what a Gluon closure can mention): counts of references, lazies, threads.
+#[derive(Clone, Copy, Default, Debug)]
+struct Scope {
+    nr: usize,
+    nl: usize,
+    nt: usize,
+}
+const NCHAN: usize = 2;
+
+fn bop_ok(b: &Bop, sc: Scope) -> bool {
+    match b {
+        Bop::Send(c, _) | Bop::Recv(c) => *c < NCHAN,
+        Bop::Load(r) | Bop::Store(r, _) => *r < sc.nr,
+        Bop::Force(l) => *l < sc.nl,
+        Bop::Yield => true,
+    }
+}
+/// Is the sequence a Gluon program (every name bound when it is mentioned)?
+fn well_scoped(ops: &[Op]) -> bool {
+    let mut sc = Scope::default();
+    for o in ops {
+        match o {
+            Op::B(b) => {
+                if !bop_ok(b, sc) {
+                    return false;
+                }
+            }
+            Op::Ref(_) => sc.nr += 1,
+            Op::Lazy(b) => {
+                if let Some(r) = b.bump {
+                    if r >= sc.nr {
+                        return false;
+                    }
+                }
+                if let LRes::Force(j) = b.res {
+                    if j > sc.nl {
+                        return false;
+                    }
+                }
+                sc.nl += 1
+            }
+            Op::Spawn(body) => {
+                if !body.iter().all(|b| bop_ok(b, sc)) {
+                    return false;
+                }
+                sc.nt += 1
+            }
+            Op::Resume(t) => {
+                if *t >= sc.nt {
+                    return false;
+                }
+            }
         }
     }
+    true
+}
+
+// ---------------------------------------------------------------------------------------
+// Gluon source
+// ---------------------------------------------------------------------------------------
+/// Helper module, type checked with the implicit prelude and loaded once per VM.
+const LIB: &str = r#"
+let { send, recv, channel } = import! std.channel
+let { ref, load, (<-) } = import! std.reference
+let { (<-) = st_store, load = st_load, ref = st_ref } = import! std.st.reference.prim
+let { Lazy, lazy, force } = import! std.lazy
+let { Option } = import! std.option
+let { spawn, yield, resume } = import! std.thread
+let { wrap } = import! std.applicative
+let { flat_map } = import! std.monad
+let io @ { IO, ? } = import! std.io
+let { Result } = import! std.result
+let { show, ? } = import! std.show
+let int = import! std.int
+let string = import! std.string
+
+let si x : Int -> String = show x
+// the log: one entry `<thread>:<observation>` per operation, in execution order
+let log lg tid tok =
+    do s = load lg
+    lg <- (s ++ " " ++ si tid ++ ":" ++ tok)
+let op_send lg tid s v =
+    do r = send s v
+    match r with
+    | Ok _ -> log lg tid "s"
+    | Err _ -> log lg tid "S"
+let op_recv lg tid q =
+    do r = recv q
+    match r with
+    | Ok v -> log lg tid ("r" ++ si v)
+    | Err _ -> log lg tid "e"
+let op_load lg tid r =
+    do v = load r
+    log lg tid ("v" ++ si v)
+let op_store lg tid r v =
+    do _ = r <- v
+    log lg tid "w"
+// `force` is a pure function: an error of the thunk unwinds the thread unless it is caught
+let op_force lg tid l =
+    let act =
+        do _ = wrap ()
+        let v = force l
+        wrap (Ok v)
+    do r = io.catch act (\msg -> wrap (Err msg))
+    match r with
+    | Ok v -> log lg tid ("f" ++ si v)
+    | Err _ -> log lg tid "x"
+let op_yield lg tid =
+    do _ = log lg tid "y"
+    let u = yield ()
+    wrap u
+let op_resume lg tid t =
+    let act =
+        do r = resume t
+        wrap (Ok r)
+    do r = io.catch act (\msg -> wrap (Err msg))
+    match r with
+    | Ok r ->
+        match r with
+        | Ok _ -> log lg tid "R"
+        | Err _ -> log lg tid "D"
+    | Err _ -> log lg tid "X"
+// thunk bodies: a pure-typed side effect (std.st.reference.prim) shows how often a body ran
+let bump r f =
+    let _ = st_store r (st_load r + 1)
+    f ()
+let boom _ : () -> Int = error "boom"
+let inc x : Int -> Int = x + 1
+// a lazy value whose thunk can mention the lazy value itself
+let knot f : (Lazy Int -> () -> Int) -> Lazy Int =
+    let cell = st_ref None
+    let l = lazy (\_ ->
+            match st_load cell with
+            | Some me -> f me ()
+            | None -> error "unset")
+    let _ = st_store cell (Some l)
+    l
+let io_wrap x : a -> IO a = wrap x
+let io_flat_map f m : (a -> IO b) -> IO a -> IO b = flat_map f m
+{
+    channel, ref, load, lazy, force, spawn, wrap = io_wrap, flat_map = io_flat_map, knot, boom, inc, log,
+    op_send, op_recv, op_load, op_store, op_force, op_yield, op_resume, bump,
+}
+"#;
+
+const HEADER: &str = "//@NO-IMPLICIT-PRELUDE\nlet { channel, ref, load, lazy, force, spawn, wrap, flat_map, knot, boom, inc, log, op_send, op_recv, op_load, op_store, op_force, op_yield, op_resume, bump } = import! c17lib\ndo { sender = s0, receiver = q0 } = channel 0\ndo { sender = s1, receiver = q1 } = channel 0\ndo lg = ref \"\"\n";
+
+fn bop_src(b: &Bop, tid: usize, indent: &str, out: &mut String) {
+    let line = match b {
+        Bop::Send(c, v) => format!("op_send lg {} s{} {}", tid, c, v),
+        Bop::Recv(c) => format!("op_recv lg {} q{}", tid, c),
+        Bop::Load(r) => format!("op_load lg {} r{}", tid, r),
+        Bop::Store(r, v) => format!("op_store lg {} r{} {}", tid, r, v),
+        Bop::Force(l) => format!("op_force lg {} l{}", tid, l),
+        Bop::Yield => format!("op_yield lg {}", tid),
+    };
+    out.push_str(indent);
+    out.push_str("do _ = ");
+    out.push_str(&line);
+    out.push('\n');
+}
+
+fn lazy_src(b: &LBody, own: usize) -> String {
+    let self_ref = matches!(b.res, LRes::Force(j) if j == own);
+    let inner = match &b.res {
+        LRes::Val(v) => format!("\\_ -> {}", v),
+        LRes::Fail => "boom".to_string(),
+        LRes::Force(j) if *j == own => "\\_ -> inc (force me)".to_string(),
+        LRes::Force(j) => format!("\\_ -> inc (force l{})", j),
+    };
+    let thunk = match b.bump {
+        Some(r) => format!("\\_ -> bump r{} ({})", r, inner),
+        None => inner,
+    };
+    if self_ref { format!("knot (\\me -> {})", thunk) } else { format!("lazy ({})", thunk) }
+}
+
+fn program(ops: &[Op]) -> String {
+    let mut s = String::from(HEADER);
+    let mut sc = Scope::default();
+    for o in ops {
+        match o {
+            Op::B(b) => bop_src(b, 0, "", &mut s),
+            Op::Ref(v) => {
+                s.push_str(&format!("do r{} = ref {}\ndo _ = log lg 0 \"n\"\n", sc.nr, v));
+                sc.nr += 1;
+            }
+            Op::Lazy(b) => {
+                s.push_str(&format!("let l{} = {}\ndo _ = log lg 0 \"n\"\n", sc.nl, lazy_src(b, sc.nl)));
+                sc.nl += 1;
+            }
+            Op::Spawn(body) => {
+                s.push_str(&format!("do t{} = spawn (\n", sc.nt));
+                for b in body {
+                    bop_src(b, sc.nt + 1, "        ", &mut s);
+                }
+                s.push_str("        wrap ()\n    )\ndo _ = log lg 0 \"n\"\n");
+                sc.nt += 1;
+            }
+            Op::Resume(t) => s.push_str(&format!("do _ = op_resume lg 0 t{}\n", t)),
+        }
+    }
+    s.push_str("load lg\n");
+    s
+}
+
+// ---------------------------------------------------------------------------------------
+// running the implementation
+// ---------------------------------------------------------------------------------------
+fn new_vm() -> RootedThread {
+    let vm = gluon::VmBuilder::new().build();
+    vm.run_io(true);
+    vm.load_script("c17lib", LIB).unwrap_or_else(|e| panic!("c17lib does not compile: {}", e));
+    vm
+}
+
+struct Flag(AtomicBool);
+impl Wake for Flag {
+    fn wake(self: Arc<Self>) {
+        self.0.store(true, Ordering::SeqCst)
+    }
+    fn wake_by_ref(self: &Arc<Self>) {
+        self.0.store(true, Ordering::SeqCst)
+    }
+}
+
+fn one_line(s: &str) -> String {
+    let t: String = s.chars().map(|c| if c == '\n' || c == '\r' { ' ' } else { c }).collect();
+    t.chars().take(300).collect()
+}
+
+/// Evaluates one program.  Returns (canonical result line, vm_still_usable).
+fn eval(vm: &RootedThread, src: &str) -> (String, bool) {
+    let r = std::panic::catch_unwind(std::panic::AssertUnwindSafe(|| {
+        // a fresh child thread per sequence: a main thread that hangs is simply dropped
+        let main = match vm.new_thread() {
+            Ok(t) => t,
+            Err(e) => return (format!("ERROR new_thread: {}", one_line(&e.to_string())), false),
+        };
+        let flag = Arc::new(Flag(AtomicBool::new(false)));
+        let waker = std::task::Waker::from(flag.clone());
+        let mut cx = Context::from_waker(&waker);
+        let fut = main.run_expr_async::<IO<String>>("c17", src);
+        let mut fut = Box::pin(fut);
+        let mut polls = 0u32;
+        loop {
+            flag.0.store(false, Ordering::SeqCst);
+            match fut.as_mut().poll(&mut cx) {
+                Poll::Ready(Ok((IO::Value(s), _))) => return (s.trim().to_string(), true),
+                Poll::Ready(Ok((IO::Exception(e), _))) => return (format!("EXCEPTION {}", one_line(&e)), true),
+                Poll::Ready(Err(e)) => return (format!("ERROR {}", one_line(&e.to_string())), true),
+                Poll::Pending => {
+                    polls += 1;
+                    if !flag.0.load(Ordering::SeqCst) {
+                        // pending and nobody will ever wake us: the program hangs
+                        return ("HANG".to_string(), true);
+                    }
+                    if polls > 100_000 {
+                        return ("HANG(livelock)".to_string(), false);
+                    }
+                }
+            }
+        }
+    }));
+    match r {
+        Ok(x) => x,
+        Err(p) => {
+            let msg = p
+                .downcast_ref::<String>()
+                .cloned()
+                .or_else(|| p.downcast_ref::<&str>().map(|s| s.to_string()))
+                .unwrap_or_else(|| "?".into());
+            (format!("PANIC {}", one_line(&msg)), false)
+        }
+    }
+}
+
+fn child_main(inp: &str, outp: &str) {
+    std::panic::set_hook(Box::new(|_| {}));
+    let f = std::fs::File::open(inp).expect("child input");
+    let mut out = std::fs::OpenOptions::new().create(true).append(true).open(outp).expect("child output");
+    let mut vm = new_vm();
+    let mut n = 0u64;
+    for line in std::io::BufReader::new(f).lines() {
+        let line = line.unwrap();
+        let (idx, case) = line.split_once('\t').expect("idx<TAB>case");
+        let ops = match parse_case(case) {
+            Ok(o) => o,
+            Err(e) => {
+                writeln!(out, "{}\tERROR parse {}", idx, e).unwrap();
+                continue;
+            }
+        };
+        n += 1;
+        if n % 1500 == 0 {
+            vm = new_vm();
+        }
+        let (res, usable) = eval(&vm, &program(&ops));
+        writeln!(out, "{}\t{}", idx, res).unwrap();
+        out.flush().unwrap();
+        if !usable {
+            vm = new_vm();
+        }
+    }
+}
+
+/// `run_expr` as an embedder calls it (`futures::executor::block_on`): used to confirm hangs.
+fn confirm_main(case: &str) {
+    let ops = parse_case(case).expect("case");
+    let vm = new_vm();
+    println!("ready");
+    std::io::stdout().flush().unwrap();
+    match vm.run_expr::<IO<String>>("c17", &program(&ops)) {
+        Ok((IO::Value(s), _)) => println!("returned {}", s.trim()),
+        Ok((IO::Exception(e), _)) => println!("returned EXCEPTION {}", one_line(&e)),
+        Err(e) => println!("returned ERROR {}", one_line(&e.to_string())),
+    }
+}
+
+/// Runs `confirm` in a child; (true, _) = still blocked `secs` seconds after the VM was ready.
+fn confirm_hang(case: &str, secs: u64) -> (bool, String) {
+    let exe = std::env::current_exe().unwrap();
+    let mut ch = std::process::Command::new(exe)
+        .arg("confirm")
+        .arg(case)
+        .stdout(std::process::Stdio::piped())
+        .stderr(std::process::Stdio::null())
+        .spawn()
+        .expect("spawn confirm");
+    let stdout = ch.stdout.take().unwrap();
+    let (tx, rx) = std::sync::mpsc::channel();
+    std::thread::spawn(move || {
+        for l in std::io::BufReader::new(stdout).lines().flatten() {
+            let _ = tx.send(l);
+        }
+    });
+    // wait for "ready" (VM built, library loaded), then give the program `secs` seconds
+    let mut ready = false;
+    let t0 = std::time::Instant::now();
+    let mut deadline = std::time::Duration::from_secs(120);
+    loop {
+        match rx.recv_timeout(std::time::Duration::from_millis(100)) {
+            Ok(l) if l == "ready" => {
+                ready = true;
+                deadline = t0.elapsed() + std::time::Duration::from_secs(secs);
+            }
+            Ok(l) => {
+                let _ = ch.kill();
+                let _ = ch.wait();
+                return (false, l);
+            }
+            Err(_) => {
+                if t0.elapsed() > deadline {
+                    let _ = ch.kill();
+                    let _ = ch.wait();
+                    return (ready, if ready { format!("still blocked after {} s", secs) } else { "vm never became ready".into() });
+                }
+                if let Ok(Some(st)) = ch.try_wait() {
+                    // drain what the child printed before exiting
+                    if let Ok(l) = rx.recv_timeout(std::time::Duration::from_millis(200)) {
+                        if l != "ready" {
+                            return (false, l);
+                        }
+                        if let Ok(l2) = rx.recv_timeout(std::time::Duration::from_millis(200)) {
+                            return (false, l2);
+                        }
+                    }
+                    return (false, format!("exited {:?}", st));
+                }
+            }
+        }
+    }
+}
+
+/// Parent side: run all cases on `workers` children with a progress watchdog.
+fn run_all(cases: &[String], dir: &std::path::Path, workers: usize) -> Vec<String> {
+    let exe = std::env::current_exe().unwrap();
+    let n = cases.len();
+    let mut results: Vec<Option<String>> = vec![None; n];
+    // round-robin sharding keeps expensive neighbourhoods spread over the workers
+    let mut shards: Vec<Vec<usize>> = vec![vec![]; workers];
+    for i in 0..n {
+        shards[i % workers].push(i);
+    }
+    struct W {
+        shard: Vec<usize>,
+        pos: usize, // next position of the shard not yet accounted for
+        child: Option<std::process::Child>,
+        inp: std::path::PathBuf,
+        outp: std::path::PathBuf,
+        read_off: u64,
+        last_progress: std::time::Instant,
+    }
+    let mut ws: Vec<W> = shards
+        .into_iter()
+        .enumerate()
+        .map(|(k, shard)| W {
+            shard,
+            pos: 0,
+            child: None,
+            inp: dir.join(format!("shard{}.in", k)),
+            outp: dir.join(format!("shard{}.out", k)),
+            read_off: 0,
+            last_progress: std::time::Instant::now(),
+        })
+        .collect();
+    let start = |w: &mut W| {
+        let mut f = std::io::BufWriter::new(std::fs::File::create(&w.inp).unwrap());
+        for &i in &w.shard[w.pos..] {
+            writeln!(f, "{}\t{}", i, cases[i]).unwrap();
+        }
+        f.flush().unwrap();
+        drop(f);
+        std::fs::File::create(&w.outp).unwrap();
+        w.read_off = 0;
+        w.last_progress = std::time::Instant::now();
+        w.child = Some(
+            std::process::Command::new(&exe)
+                .arg("child")
+                .arg(&w.inp)
+                .arg(&w.outp)
+                .stdout(std::process::Stdio::null())
+                .stderr(std::process::Stdio::null())
+                .spawn()
+                .expect("spawn worker"),
+        );
+    };
+    for w in ws.iter_mut() {
+        if !w.shard.is_empty() {
+            start(w);
+        }
+    }
+    loop {
+        let mut active = false;
+        for w in ws.iter_mut() {
+            if w.pos >= w.shard.len() {
+                if let Some(mut c) = w.child.take() {
+                    let _ = c.wait();
+                }
+                continue;
+            }
+            active = true;
+            let exited = match w.child.as_mut() {
+                Some(c) => c.try_wait().ok().flatten(),
+                None => None,
+            };
+            // collect complete lines (after looking at the exit status, so nothing written
+            // before the exit is missed)
+            let mut text = Vec::new();
+            if let Ok(mut f) = std::fs::File::open(&w.outp) {
+                use std::io::{Read, Seek};
+                if f.seek(std::io::SeekFrom::Start(w.read_off)).is_ok() {
+                    let _ = f.read_to_end(&mut text);
+                }
+            }
+            let new = &text[..];
+            if let Some(last_nl) = new.iter().rposition(|b| *b == b'\n') {
+                for line in String::from_utf8_lossy(&new[..last_nl]).lines() {
+                    if let Some((idx, res)) = line.split_once('\t') {
+                        let idx: usize = idx.parse().unwrap();
+                        assert_eq!(idx, w.shard[w.pos], "worker answered out of order");
+                        results[idx] = Some(res.to_string());
+                        w.pos += 1;
+                    }
+                }
+                w.read_off += last_nl as u64 + 1;
+                w.last_progress = std::time::Instant::now();
+            }
+            if w.pos >= w.shard.len() {
+                continue;
+            }
+            let stalled = w.last_progress.elapsed().as_secs() > WATCHDOG_SECS;
+            if exited.is_some() || stalled {
+                if let Some(mut c) = w.child.take() {
+                    let _ = c.kill();
+                    let _ = c.wait();
+                }
+                let idx = w.shard[w.pos];
+                results[idx] = Some(match exited {
+                    Some(st) => format!("CRASH worker {:?}", st),
+                    None => "HANG(watchdog)".to_string(),
+                });
+                w.pos += 1;
+                if w.pos < w.shard.len() {
+                    start(w);
+                }
+            }
+        }
+        if !active {
+            break;
+        }
+        std::thread::sleep(std::time::Duration::from_millis(20));
+    }
+    results.into_iter().map(|r| r.unwrap_or_else(|| "MISSING".into())).collect()
+}
+
+// ---------------------------------------------------------------------------------------
+// generators
+// ---------------------------------------------------------------------------------------
+/// Gives every value-carrying operation a fresh value (1, 2, 3, … in textual order), so that
+/// order and duplication of values are visible in the observations.
+fn renumber(ops: &mut [Op]) {
+    let mut k = 0u32;
+    let mut next = || {
+        k += 1;
+        k
+    };
+    for o in ops.iter_mut() {
+        match o {
+            Op::B(Bop::Send(_, v)) | Op::B(Bop::Store(_, v)) | Op::Ref(v) => *v = next(),
+            Op::Lazy(b) => {
+                if let LRes::Val(v) = &mut b.res {
+                    *v = next()
+                }
+            }
+            Op::Spawn(body) => {
+                for b in body.iter_mut() {
+                    match b {
+                        Bop::Send(_, v) | Bop::Store(_, v) => *v = next(),
+                        _ => {}
+                    }
+                }
+            }
+            _ => {}
+        }
+    }
+}
+
+fn is_creation(o: &Op) -> bool {
+    matches!(o, Op::Ref(_) | Op::Lazy(_) | Op::Spawn(_))
+}
+
+struct Family {
+    name: &'static str,
+    prefix: Vec<Op>,
+    /// the operations available in a scope (values are placeholders)
+    alphabet: Box<dyn Fn(Scope) -> Vec<Op>>,
+    quick: usize,
+    thorough: usize,
+    describe: &'static str,
+}
+
+fn scope_after(ops: &[Op]) -> Scope {
+    let mut sc = Scope::default();
+    for o in ops {
+        match o {
+            Op::Ref(_) => sc.nr += 1,
+            Op::Lazy(_) => sc.nl += 1,
+            Op::Spawn(_) => sc.nt += 1,
+            _ => {}
+        }
+    }
+    sc
+}
+
+/// All sequences prefix ++ w, 1 <= |w| <= maxlen, w over the family's alphabet, whose last
+/// operation is not an allocation (an allocation nobody uses is not observable).
+fn enumerate(f: &Family, maxlen: usize, emit: &mut dyn FnMut(Vec<Op>)) {
+    fn go(f: &Family, cur: &mut Vec<Op>, sc: Scope, left: usize, emit: &mut dyn FnMut(Vec<Op>)) {
+        if left == 0 {
+            return;
+        }
+        for o in (f.alphabet)(sc) {
+            let mut sc2 = sc;
+            match &o {
+                Op::Ref(_) => sc2.nr += 1,
+                Op::Lazy(_) => sc2.nl += 1,
+                Op::Spawn(_) => sc2.nt += 1,
+                _ => {}
+            }
+            let creation = is_creation(&o);
+            cur.push(o);
+            if !creation {
+                let mut c = cur.clone();
+                renumber(&mut c);
+                emit(c);
+            }
+            go(f, cur, sc2, left - 1, emit);
+            cur.pop();
+        }
+    }
+    let mut cur = f.prefix.clone();
+    let sc = scope_after(&cur);
+    go(f, &mut cur, sc, maxlen, emit);
+}
+
+fn lazy_menu(sc: Scope, with_plain: bool) -> Vec<Op> {
+    let mut v = vec![];
+    let bumps: Vec<Option<usize>> = if sc.nr > 0 {
+        if with_plain { vec![Some(sc.nr - 1), None] } else { vec![Some(sc.nr - 1)] }
+    } else {
+        vec![None]
+    };
+    for bump in bumps {
+        v.push(Op::Lazy(LBody { bump, res: LRes::Val(0) }));
+        v.push(Op::Lazy(LBody { bump, res: LRes::Fail }));
+        v.push(Op::Lazy(LBody { bump, res: LRes::Force(sc.nl) })); // self-dependent
+        if sc.nl > 0 {
+            v.push(Op::Lazy(LBody { bump, res: LRes::Force(sc.nl - 1) }));
+        }
+    }
+    v
+}
+
+fn families() -> Vec<Family> {
+    use Bop::*;
+    let b = |x: Bop| Op::B(x);
+    vec![
+        Family {
+            name: "chan",
+            prefix: vec![],
+            alphabet: Box::new(move |_| vec![b(Send(0, 0)), b(Send(1, 0)), b(Recv(0)), b(Recv(1))]),
+            quick: 6,
+            thorough: 7,
+            describe: "send/recv on 2 channels, main thread only",
+        },
+        Family {
+            name: "ref",
+            prefix: vec![],
+            alphabet: Box::new(move |sc| {
+                let mut v = vec![];
+                if sc.nr < 2 {
+                    v.push(Op::Ref(0));
+                }
+                for r in 0..sc.nr {
+                    v.push(b(Load(r)));
+                    v.push(b(Store(r, 0)));
+                }
+                v
+            }),
+            quick: 6,
+            thorough: 8,
+            describe: "ref/load/store on up to 2 references, main thread only",
+        },
+        Family {
+            name: "lazy-seq",
+            prefix: vec![Op::Ref(0)],
+            alphabet: Box::new(move |sc| {
+                let mut v = vec![];
+                if sc.nl < 2 {
+                    v.extend(lazy_menu(sc, false));
+                }
+                for l in 0..sc.nl {
+                    v.push(b(Force(l)));
+                }
+                v.push(b(Load(0)));
+                v
+            }),
+            quick: 6,
+            thorough: 8,
+            describe: "after `ref`: up to 2 lazies (value / failing / self-dependent / forcing the previous one, each bumping the reference), force, load; main thread only",
+        },
+        Family {
+            name: "lazy-threads",
+            prefix: vec![Op::Ref(0)],
+            alphabet: Box::new(move |sc| {
+                let mut v = vec![];
+                if sc.nl < 2 {
+                    v.extend(lazy_menu(sc, false));
+                }
+                for l in 0..sc.nl {
+                    v.push(b(Force(l)));
+                }
+                if sc.nt < 2 && sc.nl > 0 {
+                    v.push(Op::Spawn(vec![Force(0)]));
+                    v.push(Op::Spawn(vec![Force(sc.nl - 1), Yield, Force(0), Load(0)]));
+                }
+                for t in 0..sc.nt {
+                    v.push(Op::Resume(t));
+                }
+                v.push(b(Load(0)));
+                v
+            }),
+            quick: 5,
+            thorough: 6,
+            describe: "after `ref`: up to 2 lazies, up to 2 coroutines forcing them, force on the main thread, resume, load",
+        },
+        Family {
+            name: "threads",
+            prefix: vec![Op::Ref(0)],
+            alphabet: Box::new(move |sc| {
+                let mut v = vec![b(Send(0, 0)), b(Recv(0)), b(Yield), b(Load(0))];
+                if sc.nt < 3 {
+                    v.push(Op::Spawn(vec![Send(0, 0), Yield, Send(0, 0)]));
+                    v.push(Op::Spawn(vec![Recv(0), Store(0, 0), Yield, Recv(0)]));
+                    v.push(Op::Spawn(vec![]));
+                }
+                for t in 0..sc.nt {
+                    v.push(Op::Resume(t));
+                }
+                v
+            }),
+            quick: 4,
+            thorough: 5,
+            describe: "after `ref`: send/recv on one channel, load, main-thread yield, up to 3 coroutines (producer, consumer storing what it received, empty), resume",
+        },
+        Family {
+            name: "all",
+            prefix: vec![],
+            alphabet: Box::new(move |sc| {
+                let mut v = vec![b(Send(0, 0)), b(Send(1, 0)), b(Recv(0)), b(Recv(1)), b(Yield)];
+                if sc.nr < 2 {
+                    v.push(Op::Ref(0));
+                }
+                for r in 0..sc.nr {
+                    v.push(b(Load(r)));
+                    v.push(b(Store(r, 0)));
+                }
+                if sc.nl < 2 {
+                    v.extend(lazy_menu(sc, true));
+                }
+                for l in 0..sc.nl {
+                    v.push(b(Force(l)));
+                }
+                if sc.nt < 3 {
+                    v.push(Op::Spawn(vec![Send(0, 0), Yield, Recv(1)]));
+                    if sc.nl > 0 {
+                        v.push(Op::Spawn(vec![Force(sc.nl - 1), Send(1, 0), Yield, Force(0)]));
+                    }
+                    if sc.nr > 0 {
+                        v.push(Op::Spawn(vec![Load(sc.nr - 1), Yield, Store(0, 0)]));
+                    }
+                }
+                for t in 0..sc.nt {
+                    v.push(Op::Resume(t));
+                }
+                v
+            }),
+            quick: 4,
+            thorough: 5,
+            describe: "the whole alphabet {send, recv, ref, load, store, lazy (up to 8 bodies), force, spawn (3 bodies), resume, yield} on 2 channels, up to 2 references, 2 lazies, 3 coroutines",
+        },
+    ]
+}
+
+fn random_bop(rng: &mut Rng, sc: Scope) -> Bop {
+    loop {
+        let b = match rng.below(10) {
+            0 | 1 => Bop::Send(rng.below(2) as usize, 0),
+            2 | 3 => Bop::Recv(rng.below(2) as usize),
+            4 if sc.nr > 0 => Bop::Load(rng.below(sc.nr as u64) as usize),
+            5 if sc.nr > 0 => Bop::Store(rng.below(sc.nr as u64) as usize, 0),
+            6 | 7 | 8 if sc.nl > 0 => Bop::Force(rng.below(sc.nl as u64) as usize),
+            9 => Bop::Yield,
+            _ => continue,
+        };
+        return b;
+    }
+}
+
+fn random_case(rng: &mut Rng, len: usize, max_cells: usize, max_threads: usize) -> Vec<Op> {
+    let mut ops = vec![];
+    let mut sc = Scope::default();
+    while ops.len() < len {
+        let o = match rng.below(16) {
+            0 if sc.nr < max_cells => {
+                sc.nr += 1;
+                Op::Ref(0)
+            }
+            1 | 2 if sc.nl < max_cells => {
+                let bump = if sc.nr > 0 && rng.chance(2, 3) { Some(rng.below(sc.nr as u64) as usize) } else { None };
+                let res = match rng.below(6) {
+                    0 | 1 => LRes::Val(0),
+                    2 | 3 => LRes::Fail,
+                    4 => LRes::Force(sc.nl),
+                    _ => LRes::Force(rng.below(sc.nl as u64 + 1) as usize),
+                };
+                sc.nl += 1;
+                Op::Lazy(LBody { bump, res })
+            }
+            3 | 4 if sc.nt < max_threads => {
+                let n = rng.below(6) as usize;
+                let body = (0..n).map(|_| random_bop(rng, sc)).collect();
+                sc.nt += 1;
+                Op::Spawn(body)
+            }
+            5 | 6 | 7 | 8 if sc.nt > 0 => Op::Resume(rng.below(sc.nt as u64) as usize),
+            9..=15 => Op::B(random_bop(rng, sc)),
+            _ => continue,
+        };
+        ops.push(o);
+    }
+    renumber(&mut ops);
+    ops
+}
+
+// ---------------------------------------------------------------------------------------
+fn main() {
+    let argv: Vec<String> = std::env::args().collect();
+    if argv.len() >= 4 && argv[1] == "child" {
+        return child_main(&argv[2], &argv[3]);
+    }
+    if argv.len() >= 3 && argv[1] == "confirm" {
+        return confirm_main(&argv[2]);
+    }
+    if argv.len() >= 3 && argv[1] == "source" {
+        // print the Gluon program of a case (debugging aid)
+        print!("{}", program(&parse_case(&argv[2]).expect("case")));
+        return;
+    }
+    let args = Args::parse();
+
+    if let Some(path) = &args.replay {
+        let v: serde_json::Value = serde_json::from_str(&std::fs::read_to_string(path).expect("replay file")).expect("json");
+        let case = v["case"]["ops"].as_str().expect("case.ops").to_string();
+        let ops = parse_case(&case).expect("case");
+        println!("ops: {}", case);
+        println!("--- Gluon program ---\n{}---", program(&ops));
+        let vm = new_vm();
+        let (res, _) = eval(&vm, &program(&ops));
+        println!("impl (polled executor): {}", res);
+        if res.starts_with("HANG") {
+            let (hung, what) = confirm_hang(&case, 5);
+            println!("impl (blocking run_expr in a child, 5 s watchdog): {}", if hung { format!("HANGS ({})", what) } else { what });
+        }
+        println!("expected (model, mode fixed = what C17 demands): {}", v["expected"].as_str().unwrap_or("?"));
+        println!("model of the unchanged lazy.rs (mode faithful): {}", v["extra"]["faithful_model"].as_str().unwrap_or("?"));
+        return;
+    }
+
+    let mut cases: Vec<Vec<Op>> = vec![];
+    let mut family_of: Vec<String> = vec![];
+    let mut hist = Hist::default();
+
+    // corpus first
+    let corpus_dir = std::path::Path::new(env!("CARGO_MANIFEST_DIR")).join("../corpus/C17");
+    let mut corpus_files: Vec<_> = std::fs::read_dir(&corpus_dir).map(|d| d.flatten().map(|e| e.path()).collect()).unwrap_or_else(|_| vec![]);
+    corpus_files.sort();
+    for p in corpus_files {
+        for line in std::fs::read_to_string(&p).unwrap_or_default().lines() {
+            let line = line.trim();
+            if line.is_empty() || line.starts_with('#') {
+                continue;
+            }
+            let ops = parse_case(line).unwrap_or_else(|e| panic!("corpus {}: {}", p.display(), e));
+            assert!(well_scoped(&ops), "corpus case not well scoped: {}", line);
+            cases.push(ops);
+            family_of.push("corpus".into());
+        }
+    }
+    let n_corpus = cases.len();
+
+    // exhaustive families
+    let fams = families();
+    let only: Option<&String> = args.extra.get("family");
+    let mut bounds = serde_json::Map::new();
+    for f in &fams {
+        if let Some(o) = only {
+            if o != f.name {
+                continue;
+            }
+        }
+        let maxlen: usize = args
+            .extra
+            .get(&format!("len_{}", f.name.replace('-', "_")))
+            .and_then(|s| s.parse().ok())
+            .unwrap_or(if args.thorough() { f.thorough } else { f.quick });
+        let before = cases.len();
+        enumerate(f, maxlen, &mut |c| {
+            debug_assert!(well_scoped(&c));
+            cases.push(c);
+            family_of.push(f.name.to_string());
+        });
+        bounds.insert(
+            f.name.to_string(),
+            serde_json::json!({"max_len": maxlen, "prefix": case_text(&f.prefix), "cases": cases.len() - before, "alphabet": f.describe}),
+        );
+    }
+    let n_exh = cases.len() - n_corpus;
+
+    // random sequences up to length 30
+    let mut rng = Rng::new(args.seed);
+    let nrand: usize = args.extra.get("random").and_then(|s| s.parse().ok()).unwrap_or(if args.thorough() { 20000 } else { 4000 });
+    if only.is_none() || only.map(|s| s == "random").unwrap_or(false) {
+        for i in 0..nrand {
+            let len = 4 + rng.below(27) as usize;
+            let (mc, mt) = if i % 3 == 0 { (3, 4) } else { (2, 3) };
+            let c = random_case(&mut rng, len, mc, mt);
+            assert!(well_scoped(&c));
+            cases.push(c);
+            family_of.push("random".into());
+        }
+    }
+
+    if args.extra.contains_key("count") {
+        for (k, v) in &bounds {
+            println!("{} {}", k, v);
+        }
+        println!("total {}", cases.len());
+        return;
+    }
+
+    let texts: Vec<String> = cases.iter().map(|c| case_text(c)).collect();
+    let workers: usize = args
+        .extra
+        .get("workers")
+        .and_then(|s| s.parse().ok())
+        .unwrap_or_else(|| std::thread::available_parallelism().map(|n| n.get()).unwrap_or(4).clamp(2, 8));
+    let shard_dir = args.out.join("shards");
+    std::fs::create_dir_all(&shard_dir).unwrap();
+    let t0 = std::time::Instant::now();
+    let mut results = run_all(&texts, &shard_dir, workers);
+    let run_secs = t0.elapsed().as_secs_f64();
+
+    // confirm hangs with the blocking executor: every corpus hang and the first few others
+    let mut confirmed = 0u32;
+    let mut confirm_failed = 0u32;
+    let mut budget = if args.thorough() { 6 } else { 3 };
+    for i in 0..results.len() {
+        if results[i] != "HANG" {
+            continue;
+        }
+        let is_corpus = i < n_corpus;
+        if !is_corpus && budget == 0 {
+            continue;
+        }
+        if !is_corpus {
+            budget -= 1;
+        }
+        let (hung, what) = confirm_hang(&texts[i], 4);
+        if hung {
+            confirmed += 1;
+        } else {
+            confirm_failed += 1;
+            results[i] = format!("HANG-NOT-CONFIRMED blocking run_expr: {}", what);
+        }
+    }
+
+    let mut model_in = args.file("model_in.txt");
+    let mut impl_out = args.file("impl_out.txt");
+    let mut cases_f = args.file("cases.txt");
+    let mut distinct = std::collections::HashSet::new();
+    let mut nontrivial = 0u64;
+    for (i, t) in texts.iter().enumerate() {
+        writeln!(model_in, "fixed {}", t).unwrap();
+        writeln!(impl_out, "{}", results[i]).unwrap();
+        writeln!(cases_f, "{}", t).unwrap();
+        let c = &cases[i];
+        hist.add(&format!("family:{}", family_of[i]));
+        hist.add(&format!("len:{:02}", c.len()));
+        let kind = results[i].split(|ch: char| ch == ' ' || ch == '(').next().unwrap_or("");
+        hist.add(&format!(
+            "impl:{}",
+            if ["HANG", "ERROR", "PANIC", "CRASH", "EXCEPTION", "MISSING", "HANG-NOT-CONFIRMED"].contains(&kind) { kind } else { "log" }
+        ));
+        for o in c {
+            hist.add(match o {
+                Op::B(Bop::Send(..)) => "op:send",
+                Op::B(Bop::Recv(..)) => "op:recv",
+                Op::B(Bop::Load(..)) => "op:load",
+                Op::B(Bop::Store(..)) => "op:store",
+                Op::B(Bop::Force(..)) => "op:force",
+                Op::B(Bop::Yield) => "op:yield",
+                Op::Ref(..) => "op:ref",
+                Op::Lazy(..) => "op:lazy",
+                Op::Spawn(..) => "op:spawn",
+                Op::Resume(..) => "op:resume",
+            });
+        }
+        for tok in results[i].split_whitespace() {
+            if let Some((_, o)) = tok.split_once(':') {
+                let k = match o.chars().next() {
+                    Some('x') => "obs:force-error",
+                    Some('f') => "obs:force-value",
+                    Some('e') => "obs:recv-empty",
+                    Some('r') => "obs:recv-value",
+                    Some('D') => "obs:resume-dead",
+                    Some('R') => "obs:resume-ok",
+                    _ => continue,
+                };
+                hist.add(k);
+            }
+        }
+        let observing = c.iter().filter(|o| !is_creation(o)).count();
+        if c.len() >= 2 && observing >= 1 && distinct.insert(fnv(t.as_bytes())) {
+            nontrivial += 1;
+        }
+    }
+    model_in.flush().unwrap();
+    impl_out.flush().unwrap();
+    cases_f.flush().unwrap();
+    gvh::out::write_json(
+        &args.out.join("stats.json"),
+        &serde_json::json!({
+            "evaluations": texts.len(),
+            "distinct_nontrivial": nontrivial,
+            "rule": "one evaluation = one operation sequence compiled to a Gluon program and run on the real VM; non-trivial = at least two operations of which at least one is not an allocation, distinct by sequence text",
+            "corpus": n_corpus,
+            "exhaustive": n_exh,
+            "random": texts.len() - n_corpus - n_exh,
+            "exhaustive_bounds": bounds,
+            "workers": workers,
+            "run_seconds": run_secs,
+            "programs_per_second": texts.len() as f64 / run_secs.max(0.001),
+            "hangs_confirmed_with_blocking_run_expr": confirmed,
+            "hangs_not_confirmed": confirm_failed,
+            "hist": hist.to_json(),
+        }),
+    );
 }
